@@ -1212,6 +1212,34 @@ class _Slot:
         self.v = v
 
 
+def _offer_slot(it, ctx, name, args):
+    """an operand evaluation (a cut recursive call) is handed the caller's label slot: returns whether the slot was KNOWN to be empty at that moment
+    (None: the slot was not handed over). Afterwards the slot holds what that operand may have recorded - nothing (an integer operand) or its own
+    symbol (an address operand): a two-candidate value the code under analysis can test (`!*label`), so `1 + (long)&x` style arms that offer the
+    slot to a second operand only while it is still empty are told apart from arms that let a second operand overwrite the first one's symbol"""
+    if not (len(args) > 1 and args[1] is ctx.lref):
+        return None
+    cur = settle(it, ctx.slot.v)
+    empty = is_null(cur)
+    k = len(getattr(ctx, 'c05_offers', ()))
+    sym = Obj('char', lazy=True, label='symbol-recorded-by-%s#%d' % (name, k))
+    val = View(Cell([0, sym], 'slot-after-%s#%d' % (name, k))) if empty else sym
+    ctx.slot.v = val
+    ctx.c05_offers = list(getattr(ctx, 'c05_offers', ())) + [(val, sym)]
+    return empty
+
+
+def _slot_untouched(it, ctx):
+    """the arm itself has not written the slot: it is empty, or holds what an operand evaluation may have recorded there"""
+    v = ctx.slot.v
+    if is_null(v):
+        return True
+    w = settle(it, v)
+    if is_null(w):
+        return True
+    return any(v is val or w is sym for val, sym in getattr(ctx, 'c05_offers', ()))
+
+
 def r057_addr(P, u, E, cat, rep):
     for fn, table in ADDR_SPEC.items():
         for kind, (terms, plus, labsrc) in table.items():
@@ -1224,7 +1252,7 @@ def _addr_arm(P, u, E, cat, rep, fn, kind, terms, plus, labsrc):
     def h(name):
         def f(it, ctx, n, args):
             r = Sym(ctx.fresh(name), 'long')
-            ctx.emit('rec', name, args, r, n.line)
+            ctx.emit('rec', name, args, r, n.line, _offer_slot(it, ctx, name, args))
             return r
         return f
     it = TInterp(P, u, {'cut': {'eval2': h('eval2'), 'eval_rval': h('eval_rval')}, 'opaque': ['add_type', 'eval_double'], 'track_stores': True})
@@ -1308,7 +1336,11 @@ def _addr_arm(P, u, E, cat, rep, fn, kind, terms, plus, labsrc):
                     ok = False; construct = 'label-not-passed'
                     msg = '%s of %s evaluates node->%s without handing down the label slot: the symbol of the address constant is lost (a relocation cannot be produced)' % (fn, kind, ch); break
                 if not lab and not (len(a) > 1 and is_null(a[1])):
-                    ok = False; construct = 'label-passed-to-integer-operand'; msg = 'the integer operand node->%s of %s is evaluated with the label slot' % (ch, kind); break
+                    # an operand that enters the sum with +1 may be the address operand instead of the usual one (`1 + (long)&x`): it may be offered
+                    # the slot while the slot is known to be still empty; anything else lets it overwrite / negate a symbol
+                    if not (sign == 1 and passed and len(r) > 5 and r[5] is True):
+                        ok = False; construct = 'label-passed-to-integer-operand'; msg = 'the integer operand node->%s of %s is evaluated with the label slot%s' % (
+                            ch, kind, '' if sign != 1 else ' without a test that no earlier operand has recorded its symbol there'); break
                 want = lsum(want, lscale(r[3], sign))
         if ok:
             if plus:
@@ -1324,7 +1356,7 @@ def _addr_arm(P, u, E, cat, rep, fn, kind, terms, plus, labsrc):
         if ok:
             L = ctx.slot.v
             if labsrc is None:
-                if not is_null(L):
+                if not _slot_untouched(it, ctx):
                     ok = False; construct = 'label'; msg = '%s of %s writes the label slot itself' % (fn, kind)
             else:
                 owner = node if labsrc[0] == 'node' else node.fields['var']
@@ -3616,7 +3648,7 @@ def r0511(P, u, E, cat, rep):
     def h(name, ctype='long'):
         def f(it, ctx, n, args):
             r = Sym(ctx.fresh(name), ctype)
-            ctx.emit('rec', name, args, r, n.line)
+            ctx.emit('rec', name, args, r, n.line, _offer_slot(it, ctx, name, args) if getattr(ctx, 'lref', None) is not None else None)
             return r
         return f
 
@@ -3657,7 +3689,8 @@ def r0511(P, u, E, cat, rep):
                 ok, msg, construct = True, '', 'label-discipline'
                 if other:
                     ok = False; construct = 'foreign-label-slot'; msg = '%s of %s evaluates an operand with a label slot that is not the caller\'s' % (fn, kind)
-                elif len(lab) > 1:
+                elif len(lab) > 1 and any(len(e) <= 5 or e[5] is not True for e in lab[1:]):
+                    # (a later operand may be offered the slot while it is known to be still empty: then at most one of them records a symbol)
                     ok = False; construct = 'label-slot-handed-to-several-operands'
                     msg = ('%s of %s hands the label slot to %d operand evaluations on one path (%s): each address operand overwrites the symbol recorded by the previous one, so the '
                            'relocation combines the symbol of one operand with the addend of another (or a symbol appears although an integer/null operand was selected)'
@@ -3669,7 +3702,7 @@ def r0511(P, u, E, cat, rep):
                             ok = False; construct = 'address-operand-not-returned-unscaled'
                             msg = ('%s of %s hands the label slot to node->%s but returns %s: symbol+addend is only representable when the value of the address operand enters the result '
                                    'with coefficient 1' % (fn, kind, child_name(node, settle(it, lab[0][2][0])) or '?', show(out[1])))
-                    if ok and not is_null(ctx.slot.v):
+                    if ok and not _slot_untouched(it, ctx):
                         ok = False; construct = 'label-written'; msg = '%s of %s writes the label slot itself although %s is not an address' % (fn, kind, kind)
                 if kind == 'ND_COND':
                     n_cond[fn] = n_cond.get(fn, 0) + 1
